@@ -1,6 +1,7 @@
 """C10 — MarshalJSON emits valid JSON denoting the same document (DESIGN §5.10: T6, E-esc, R1/R2)."""
 from ..e2.checklib import Lemma, run_lemmas
 from ..e2.intr_chunks import ChunkIntrinsics
+from ..e2.intr_float import RyuStubIntrinsics
 
 F6 = ["zz_verif_tape.go", "zz_verif_wf.go", "zz_verif_t1.go", "zz_verif_edit.go", "zz_verif_t6.go"]
 
@@ -28,6 +29,11 @@ def lemmas(tier):
                         desc="escapeBytes on %d fully symbolic bytes (with and without a non-empty destination) = per-byte JSON "
                              "escaping; result decodes back to the input; source untouched" % n,
                         bound="source length = %d bytes, every byte value" % n, expect_reach=["Esc"]))
+    ls.append(Lemma("FP.floattext", "verifHarness_FP_FloatText", ["zz_verif_tape.go", "zz_verif_r.go"], intr=RyuStubIntrinsics, known=("F10",),
+                    desc="fixed point: every float printed in 'f' format without a fraction is a canonical integer literal (so that its "
+                         "re-parsed integer prints the same text); real appendFloatF/fmtF, digit generator opaque under its contract",
+                    bound="all float64 with 1e-6 <= |x| < 1e21 or x = 0; generator contract: nd = 0 iff mantissa = 0, first digit non-zero, nd <= 17, -5 <= dp <= 21",
+                    expect_reach=["FP.floattext"]))
     return ls
 
 
@@ -35,5 +41,5 @@ def run(ctx):
     ctx.assume("T6 compares at chunk level: strconv.AppendInt/AppendUint, appendFloat and escapeBytes are the same injective opaque "
                "chunk on the implementation and the reference side; their own lemmas: E-esc (here), R1/R2 (C18)")
     ctx.assume("fixed point (parse(text) marshals to text) is derived: text = REF-RENDER(d) and C01-C04; the only chunk whose re-typed "
-               "value renders differently is -0.0 -> '-0' -> int64 0 -> '0' (known finding F10, see C18 lemma R2.negzero)")
+               "value renders differently is -0.0 -> '-0' -> int64 0 -> '0' (known finding F10, lemma FP.floattext)")
     run_lemmas(ctx, lemmas(ctx.tier))
